@@ -8,8 +8,11 @@ pub mod attack;
 pub mod c01;
 pub mod c02;
 pub mod c03;
+pub mod c04;
 pub mod c10;
 pub mod c12;
+pub mod c13;
+pub mod c14;
 
 use crate::case::Case;
 use crate::coord::{Batch, Stats};
@@ -121,7 +124,10 @@ pub fn run_batch(u: &mut Universe, b: &Batch, st: &mut Stats) {
         "C10" => c10::run(u, b, st),
         "C02" => c02::run(u, b, st),
         "C03" => c03::run(u, b, st),
+        "C04" => c04::run(u, b, st),
         "C12" => c12::run(u, b, st),
+        "C13" => c13::run(u, b, st),
+        "C14" => c14::run(u, b, st),
         other => st.harness_errors.push(format!("unknown check {other}")),
     }
 }
@@ -145,6 +151,15 @@ pub fn run_check(id: &str, tier: &str, seed: u64, jobs: usize) -> i32 {
             let res = crate::coord::run_batches(c12::plan(tier, seed), jobs);
             c12::finalise(tier, seed, res)
         }
+        "C13" => {
+            let res = crate::coord::run_batches(c13::plan(tier, seed), jobs);
+            c13::finalise(tier, seed, res)
+        }
+        "C14" => {
+            let res = crate::coord::run_batches(c14::plan(tier, seed), jobs);
+            c14::finalise(tier, seed, res)
+        }
+        "C04" => c04::check(tier, seed, jobs),
         "C10" => {
             let probe = crate::coord::run_batches(c10::plan_probe(tier, seed), jobs);
             let total = probe.stats.counters.get("placements_total").copied().unwrap_or(0);
@@ -192,6 +207,23 @@ pub fn replay(path: &str) -> i32 {
             return 2;
         }
     };
+    if case.check == "C04" {
+        let mk = |uni: UniCfg| Batch { check: "C04".into(), phase: "replay".into(), uni, seed: 0, lo: 0, hi: 1, fresh: false, tier: "quick".into(), extra: serde_json::json!({"case": v}) };
+        let rk = crate::coord::run_batches(vec![mk(UniCfg::k())], 1);
+        let re = crate::coord::run_batches(vec![mk(UniCfg::e())], 1);
+        let (res, _, _) = c04::compare(0, rk, re, Some(&case));
+        let want = v["expect"]["signature"].as_str().unwrap_or("").to_string();
+        let mut same = false;
+        for x in &res.stats.violations {
+            let sig = x["expect"]["signature"].as_str().unwrap_or("");
+            println!("REPLAY violation: {sig}: {}", x["expect"]["detail"].as_str().unwrap_or(""));
+            same |= sig == want;
+        }
+        if same {
+            println!("REPLAY reproduced: {want}");
+        }
+        return if res.stats.violations.is_empty() { 0 } else { 1 };
+    }
     let b = Batch {
         check: case.check.clone(),
         phase: "replay".into(),
